@@ -14,6 +14,8 @@ from hxv.ref.num import ANY, Num, isnum
 from hxv.ref.resample import resample
 
 FIELD = {"open": 1, "high": 2, "low": 3, "close": 4, "volume": 5}
+import os as _os
+FLOOR = float(_os.environ.get("VERIF_FLOOR", "1e-12"))  # relative float-noise floor added to every budget (the Num error already carries eps-terms)
 OSC = {"RSI", "STOCH", "TSI", "AROON", "ADX"}
 
 
@@ -167,7 +169,7 @@ def compare_column(cls, field, got, exp, warm, cap, stats):
             continue
         if isinstance(g, bool) or not isinstance(g, (int, float)):
             return {"kind": "type", "detail": f"field {field or 'scalar'} at {i}: {g!r}"}, compared, unver, tight
-        budget = 4 * e.e + 1e-9 * max(1.0, abs(e.v))
+        budget = 4 * e.e + FLOOR * max(1.0, abs(e.v))
         if budget > cap:
             unver += 1
             continue
@@ -245,7 +247,7 @@ def check_supertrend(cfg, base, col, stats):
                 if gv is not None:
                     return {"kind": "value", "detail": f"candle {i}: {f}={gv} must be None with direction {exp['direction']}", "field": f}, comp, 0
                 continue
-            budget = 4 * e.e + 1e-9 * abs(e.v)
+            budget = 4 * e.e + FLOOR * abs(e.v)
             if budget > 0.005 * level:
                 stats["unverifiable_points"] = stats.get("unverifiable_points", 0) + 1
                 continue
